@@ -5,6 +5,7 @@
   `universalQueue` case, a second send, a reordered counter update, a non-deferred `wg.Done()`,
   a plain `lastPanic` field … all break a `decide` here.
 -/
+import Glb.Generated.StatusTaskLane
 import Glb.Generated.TaskLane
 
 namespace Glb.Tie.TaskLane
@@ -40,5 +41,8 @@ theorem hook_points :
     Generated.TaskLane.queueProgHooks = [("q.took", 1), ("q.counted", 2), ("q.blocking", 4), ("q.handed", 5)] ∧
     Generated.TaskLane.workerProgHooks = [("w.got", 3)] ∧
     Generated.TaskLane.pushProgHooks = [("p.enter", 0), ("p.inner", 1)] := by decide
+
+/-- the extractor of this area recognised the source as it is on this run (a refusal removes `ok`) -/
+theorem extractor_ok : Glb.Generated.StatusTaskLane.ok = () := rfl
 
 end Glb.Tie.TaskLane
